@@ -27,8 +27,15 @@ type CEnv struct {
 // state of a path is the heap of a real execution, where these hold.
 func (env *CEnv) inv(v SV) SV {
 	if env.st == nil {
+		env.x.pendingInv = nil
 		return v
 	}
+	for _, a := range env.x.pendingInv {
+		if !hasBoundVar(a) {
+			env.st.assume(a)
+		}
+	}
+	env.x.pendingInv = nil
 	tmp := &State{wm: env.st.wm}
 	env.x.assumeTypeInv(tmp, v)
 	for _, a := range tmp.assumes {
@@ -222,7 +229,14 @@ func (env *CEnv) eval(e *CExpr) SV {
 				n.vars[k] = v
 			}
 		}
-		return n.eval(e.X)
+		ov := n.eval(e.X)
+		if ov.K == KSeq && ov.Arr == nil && ov.Ty != nil {
+			if et := elemTypeOf(ov.Ty); et != nil && typeKind(et) == KInt {
+				// the contents are those of the old state too
+				ov = n.resolveSeq(ov)
+			}
+		}
+		return ov
 	case "deref":
 		pv := env.eval(e.X)
 		if pv.K == KRef && pv.Loc != nil && pv.Loc.Ref != nil {
@@ -429,6 +443,12 @@ func (env *CEnv) call(e *CExpr) SV {
 			return boolSV(Lt(a.Id, wm))
 		}
 		return boolSV(Lt(a.T, wm))
+	case "global":
+		// the (fixed) value of a package-level variable of reference type, e.g. global("io.EOF")
+		if len(e.Args) != 1 || e.Args[0].Kind != "str" {
+			env.errf("global(\"pkg.Name\")")
+		}
+		return refSV(App("G:"+e.Args[0].Str, SInt), types.Universe.Lookup("error").Type())
 	case "funcval":
 		if len(e.Args) != 1 || e.Args[0].Kind != "str" {
 			env.errf("funcval(\"name\")")
@@ -469,6 +489,17 @@ func (env *CEnv) call(e *CExpr) SV {
 			ts = append(ts, env.evalInt(a))
 		}
 		return boolSV(App("ext."+e.Args[0].Str, SBool, ts...))
+	case "bytesUnchanged":
+		// no element of any byte array that existed in the old state has changed
+		if env.old == nil {
+			env.errf("bytesUnchanged() needs an old state")
+		}
+		env.x.registerKey("E:byte", SArr2)
+		cur := env.x.heapGet(env.cur, "E:byte", SArr2)
+		old := env.x.heapGet(env.old, "E:byte", SArr2)
+		*env.qn++
+		r := Var(fmt.Sprintf("r!q%d", *env.qn), SInt)
+		return boolSV(Forall([]*Term{r}, Implies(And(Le(IntC(0), r), Lt(r, env.wmOld)), Eq(Select(cur, r), Select(old, r)))))
 	case "otherArraysUnchanged":
 		// every byte array other than the backing array of the argument is as it was in the old state
 		a := env.eval(e.Args[0])
